@@ -16,6 +16,21 @@ def packets(rng, n, maxrr=4):
         if k % 7 == 0:
             p["qs"].append({"name": dns.gen_name(rng, None), "qtype": dns.QTYPES[k % len(dns.QTYPES)],
                             "qclass": (dns.CLASSES + [255])[k % 6], "uni": bool(k & 1)})
+        if k % 40 == 5:
+            # names at the 63 / 255 limits, in question, owner and RDATA positions
+            for total in (253, 254, 255):
+                nm = []
+                left = total - 1
+                while left > 0:
+                    l = min(63, left - 1)
+                    if left - 1 - l == 1:      # avoid a zero-length remainder label
+                        l -= 1
+                    nm.append(bytes([97 + len(nm)]) * l)
+                    left -= l + 1
+                assert sum(len(x) + 1 for x in nm) + 1 == total, (total, [len(x) for x in nm])
+                p["qs"].append({"name": nm, "qtype": 1, "qclass": 1, "uni": False})
+                p["ans"].append({"name": nm, "class": 1, "ttl": 1, "cf": False, "rdata": ("T", "MX", [("I", 1), ("N", nm)])})
+                p["adds"].append({"name": nm[1:], "class": 1, "ttl": 1, "cf": False, "rdata": ("T", "SRV", [("I", 1), ("I", 2), ("I", 3), ("N", nm)])})
         out.append(p)
         k += 1
     return out
